@@ -93,10 +93,12 @@ crate::harnesses! {
 
     /// parsing with punctuation options the format does not allow returns an error (no value, no panic).
     /// @prop C18 C10
+    /// @tier thorough
+    /// @mem 12
     /// @feat default radix_format
     /// @bound input "1" followed by two symbolic bytes
     /// @fn lexical-parse-float::api (is_valid_options_punctuation check at entry)
-    /// @timeout 1200
+    /// @timeout 3600
     #[cfg_attr(kani, kani::unwind(6))]
     fn parse_invalid_punctuation_is_an_error() {
         const F: u128 = lexical_util::format::STANDARD;
